@@ -150,6 +150,45 @@ def _indent(block, unit):
     return ''.join(unit + l if l.strip() else l for l in ref_split_lines(block, True))
 
 
+_MOD = st.sampled_from(['a', 'b', 'os', 'pkg', 'x', 'path', '__future__', 'mod'])
+_FEATURES = ['division', 'annotations', 'print_function', 'generator_stop', 'unicode_literals', 'absolute_import', 'with_statement',
+             'nested_scopes', 'generators']      # barry_as_FLUFL: listed finding F-C12-18, excluded by construction (its replay still runs)
+
+
+@st.composite
+def imports(draw):
+    """Import statements as a product of their parts: `import` with 1-3 dotted names and optional aliases; `from` with relative
+    level 0-5 (three dots are one `...` token), dotted module of depth 0-3, star / 1-3 names with optional aliases, optional
+    parentheses and trailing comma; `from __future__ import <feature> [as alias]`.  The reference decides validity."""
+    def dotted(lo, hi):
+        return '.'.join(draw(st.lists(_MOD, min_size=lo, max_size=hi)))
+
+    def alias():
+        return draw(st.sampled_from(['', '', ' as r', ' as _q', ' as x']))
+    kind = draw(st.integers(0, 9))
+    if kind <= 2:
+        items = [dotted(1, 3) + alias() for _ in range(draw(st.integers(1, 3)))]
+        return 'import ' + ', '.join(items) + '\n'
+    if kind == 3:
+        names = draw(st.lists(st.sampled_from(_FEATURES), min_size=1, max_size=3, unique=True))
+        body = ', '.join(n + alias() for n in names)
+        if draw(st.booleans()):
+            body = '(' + body + draw(st.sampled_from(['', ','])) + ')'
+        return 'from __future__ import ' + body + '\n'
+    level = draw(st.sampled_from([0, 0, 1, 1, 2, 3, 3, 4, 5]))
+    mod = dotted(0 if level else 1, 3)
+    sep = draw(st.sampled_from(['', '', ' ']))
+    head = 'from ' + '.' * level + (sep if level else '') + mod
+    what = draw(st.integers(0, 5))
+    if what == 0:
+        body = '*'
+    else:
+        body = ', '.join(draw(_MOD) + alias() for _ in range(draw(st.integers(1, 3))))
+        if what >= 4:
+            body = '(' + body + draw(st.sampled_from(['', ',', ',\n'])) + ')'
+    return head + ' import ' + body + '\n'
+
+
 def stmts(depth=2):
     e = exprs(2)
     simple = st.one_of(
@@ -165,6 +204,7 @@ def stmts(depth=2):
         st.builds(lambda n: 'del %s, y[0], z.a\n' % n, NAMES),
         st.builds(lambda n, m: 'import %s.%s as q\n' % (n, m), st.sampled_from(['os', 'a', 'pkg']), st.sampled_from(['path', 'b', 'mod'])),
         st.builds(lambda n, m: 'from .%s import (%s as r,\n    s)\n' % (n, m), st.sampled_from(['', 'a', '.a.b']), st.sampled_from(['x', 'y'])),
+        imports(), imports(),
         st.just('[*a, *b][0] = 1\n'), st.just('[*a, *b][0], c = 1, 2\n'), st.just('x = [i for i in y]; del x\n'),
         st.builds(lambda n: ''.join(' ' * i + 'if x:\n' for i in range(n)) + ' ' * n + 'pass\n', st.integers(15, 21)),
         st.builds(lambda n: 'def f():\n' + ''.join(' ' * (i + 1) + 'while x:\n' for i in range(n)) + ' ' * (n + 1) + 'pass\n', st.integers(17, 20)),
@@ -207,8 +247,19 @@ def stmts(depth=2):
     )
 
 
+@st.composite
+def future_imports(draw):
+    names = draw(st.lists(st.sampled_from(_FEATURES), min_size=1, max_size=3, unique=True))
+    body = ', '.join(n + draw(st.sampled_from(['', '', ' as r', ' as _q', ' as division'])) for n in names)
+    if draw(st.booleans()):
+        body = '(' + body + draw(st.sampled_from(['', ','])) + ')'
+    doc = draw(st.sampled_from(['', '', '"doc"\n', '# c\n\n', '"a" "b"\n']))
+    return doc + 'from __future__ import ' + body + '\n'
+
+
 def programs():
-    return st.lists(stmts(2), min_size=1, max_size=5).map(''.join)
+    body = st.lists(stmts(2), min_size=1, max_size=5).map(''.join)
+    return st.one_of(body, body, body, st.builds(lambda f, b: f + b, future_imports(), body))
 
 
 # ---- (b) token-level mutations ---------------------------------------------------------------------
